@@ -30,7 +30,7 @@ theorem Anc.irrefl {rk : Nat → Nat} {s : State} (wr : Ranked rk s) {a : Nat} :
   intro h; have := h.rank wr; omega
 
 /-- beneath `t` = beneath-or-equal one of the children of `t` (nothing pending in between) -/
-theorem anc_iff_child {s : State} (w : WFp s) (t : Nat) (tb : Obj) (ht : s.get t = some tb) (y : Nat)
+theorem anc_iff_child {s : State} (w : WFt s) (t : Nat) (tb : Obj) (ht : s.get t = some tb) (y : Nat)
     (hnp : ∀ z zb, InSub s t z → s.get z = some zb → zb.pending = false) :
     Anc s t y ↔ ∃ c ∈ tb.children, InSub s c y := by
   constructor
@@ -57,7 +57,7 @@ theorem anc_iff_child {s : State} (w : WFp s) (t : Nat) (tb : Obj) (ht : s.get t
     · exact h1.trans hin
 
 /-- the subtrees of two different children are disjoint -/
-theorem sub_disjoint {rk : Nat → Nat} {s : State} (i : Inv rk s) (t : Nat) (tb : Obj) (ht : s.get t = some tb)
+theorem sub_disjoint {rk : Nat → Nat} {s : State} (i : InvT rk s) (t : Nat) (tb : Obj) (ht : s.get t = some tb)
     (c1 c2 : Nat) (h1 : c1 ∈ tb.children) (h2 : c2 ∈ tb.children) (hne : c1 ≠ c2) (y : Nat) :
     ¬ (InSub s c1 y ∧ InSub s c2 y) := by
   rintro ⟨a1, a2⟩
@@ -116,7 +116,7 @@ theorem sum_list_comm (n : Nat) (L : List Nat) (F : Nat → Nat → Nat) :
 
 open Classical in
 /-- a sum over the subtree of `t` = the term of `t` + the sums over the subtrees of its children -/
-theorem sum_sub_decomp {rk : Nat → Nat} {s : State} (i : Inv rk s) (t : Nat) (tb : Obj) (ht : s.get t = some tb)
+theorem sum_sub_decomp {rk : Nat → Nat} {s : State} (i : InvT rk s) (t : Nat) (tb : Obj) (ht : s.get t = some tb)
     (hnp : ∀ z zb, InSub s t z → s.get z = some zb → zb.pending = false) (g : Nat → Nat) :
     ∑ y ∈ range s.heap.length, (if InSub s t y then g y else 0) =
       g t + (tb.children.map fun c => ∑ y ∈ range s.heap.length, if InSub s c y then g y else 0).sum := by
